@@ -4,6 +4,7 @@ import (
 	"io"
 	"strconv"
 	"strings"
+	"unicode/utf8"
 
 	"github.com/alecthomas/participle/v2/lexer"
 )
@@ -51,16 +52,24 @@ func Unquote(types ...string) Option {
 func unquote(s string) (string, error) {
 	quote := s[0]
 	s = s[1 : len(s)-1]
-	out := ""
+	if quote == '`' {
+		// Raw strings have no escapes; like strconv.Unquote, only drop carriage returns.
+		return strings.ReplaceAll(s, "\r", ""), nil
+	}
+	out := make([]byte, 0, len(s))
 	for s != "" {
-		value, _, tail, err := strconv.UnquoteChar(s, quote)
+		value, multibyte, tail, err := strconv.UnquoteChar(s, quote)
 		if err != nil {
 			return "", err
 		}
 		s = tail
-		out += string(value)
+		if value < utf8.RuneSelf || !multibyte {
+			out = append(out, byte(value)) // A single byte, e.g. "\xff".
+		} else {
+			out = utf8.AppendRune(out, value)
+		}
 	}
-	return out, nil
+	return string(out), nil
 }
 
 // Upper is an Option that upper-cases all tokens of the given type. Useful for case normalisation.
